@@ -17,7 +17,8 @@ def facts(res, harness):
     b = r["facts"].get("builders") or []
     for row in b:
         if not row["delegates"]:
-            res.violation("(*ir.Block).%s is not the pure delegation to the free constructor %s: %s" % (row["name"], row["name"], row["why"]),
+            meth = row["name"] if "." in row["name"] else "Block." + row["name"]
+            res.violation("(*ir.%s).%s is not the pure delegation to the free constructor %s: %s" % (meth.split(".")[0], meth.split(".")[1], meth.split(".")[1], row["why"]),
                           {"ops": [], "fact": row, "replay_hint": "cd /verif/harness && ./bin/harness facts | jq .builders"})
     return {"block_builders": len(b), "block_builders_not_delegating": [row["name"] for row in b if not row["delegates"]],
             "facts_regenerated_changed": r["facts_regenerated_changed"]}
